@@ -45,7 +45,7 @@ static void text(vrng *r, uint8_t *b, size_t n)
  * the grammar generator then writes blocks that carry this header verbatim followed by arbitrary tokens in that code (the decoder's
  * "header equals the pregenerated one" shortcut with data its own compressor would not produce) */
 extern const struct isal_hufftables hufftables_default;
-static uint8_t pre_l[320]; static int pre_nlen, pre_ndist, pre_ok = -1; static size_t pre_bits; static long st_foreign_hdr;
+static uint8_t pre_l[320]; static int pre_nlen, pre_ndist, pre_ok = -1; static size_t pre_bits; static long st_foreign_hdr, st_maxhdr, st_maxhdr_bits;
 static void pre_setup(void)
 {
 	static rinf_t pr; memset(&pr, 0, sizeof pr); pre_ok = 0;
@@ -97,7 +97,9 @@ static int gen_valid(vrng *r, vstream *v, int want_src, int fault)
 		if (!fault && vrn(r, 8) == 0) {   /* 64 KiB and a bit of stored data first: what follows is decoded after the decoder has switched to writing directly into the caller's buffer; the rest is short and ends in a small last block */
 			pre_out = 65536 + vrn(r, 3000); vr_fill(r, expb, pre_out); size_t done = 0; while (done < pre_out) { size_t l = pre_out - done > 65535 ? 65535 : pre_out - done; uint8_t *q = tmpin + pre_bytes; q[0] = 0; q[1] = (uint8_t) l; q[2] = (uint8_t) (l >> 8); q[3] = (uint8_t) ~l; q[4] = (uint8_t) (~l >> 8); memcpy(q + 5, expb + done, l); pre_bytes += 5 + l; done += l; }
 			cap = 1 + vrn(r, 3000); g.max_blocks = 1 + vrn(r, 2); st_prefixed++; }
-		size_t bl = defgen(&g, r, tmpin + pre_bytes, SMAX - 70000 - pre_bytes, expb + pre_out, cap);
+		size_t bl;
+		if (!fault && !pre_bytes && vrn(r, 12) == 0) { bl = dg_maxhdr_stream(&g, r, tmpin, SMAX - 70000, expb, 60000); st_maxhdr++; if (g.fault_bit > st_maxhdr_bits) st_maxhdr_bits = (long) g.fault_bit; }   /* near-maximal dynamic header */
+		else bl = defgen(&g, r, tmpin + pre_bytes, SMAX - 70000 - pre_bytes, expb + pre_out, cap);
 		if (!bl) return -1;
 		bl += pre_bytes; g.explen += pre_out;
 		v->elen = g.explen; v->deep = g.deep;
@@ -495,7 +497,7 @@ int main(int argc, char **argv)
 	}
 	v_stat("evaluations", st_decodes); v_stat("streams", st_streams); v_stat("library_calls", st_calls); v_stat("streams_with_codes_13plus", st_deep); v_stat("finished_results_checked_against_reference", st_false_ok_checked);
 	v_stat("rejected_but_reference_lenient", st_stricter); v_stat("mutants_still_valid_and_accepted", st_benign_ok); v_stat("trailer_straddling_histories", st_trailer_straddle); v_stat("need_dict_flows", st_needdict); v_stat("valid_streams_followed_by_foreign_bytes", st_tail); v_stat("generated_streams_that_start_with_64KiB_of_stored_data", st_prefixed); v_stat("streams_over_64KiB_with_the_first_output_buffer_ending_1_to_3_bytes_early", st_near_end); v_stat("stateless_retries_on_the_same_struct_after_overflow", st_sl_retry); v_stat("streams_whose_gzip_header_the_caller_parsed_with_the_reader_first", st_pre_hdr); v_stat("stateless_calls_on_a_struct_whose_previous_call_ended_inside_the_trailer", st_sl_trunc);
-	v_stat("inflate_dict_calls_refused", st_dict_refused); v_stat("generated_blocks_carrying_the_library_default_header_with_foreign_tokens", st_foreign_hdr);
+	v_stat("inflate_dict_calls_refused", st_dict_refused); v_stat("generated_blocks_carrying_the_library_default_header_with_foreign_tokens", st_foreign_hdr); v_stat("streams_with_a_near_maximal_dynamic_header", st_maxhdr); if (st_maxhdr_bits) { char hb[40]; snprintf(hb, sizeof hb, "%ld", st_maxhdr_bits); v_set("near_maximal_dynamic_header_bits", hb); }
 	v_count("stream_source", "grammar", st_kind[0]); v_count("stream_source", "zlib", st_kind[1]); v_count("stream_source", "isal", st_kind[2]);
 	v_count("flip_region", "header", st_detect[0]); v_count("flip_region", "body", st_detect[1]); v_count("flip_region", "trailer", st_detect[2]);
 	for (int m = 0; m < 7; m++) if (st_modes[m]) v_count("decodes_per_mode", modename(m), st_modes[m]);
